@@ -1950,8 +1950,8 @@ theorem match_follows {α : Type} (src : Vol α) (tgt : Geom) (tol : Rat) (mode 
           simp only [bindE_ok]
           rw [runMatch_tail]
 
-theorem v2v_follows (fromA toA : Aff) (shape : Ax → Int) (roundOut check : Bool) (pts : List V3) :
-    v2vBySource fromA toA shape roundOut check pts = v2v fromA toA shape roundOut check pts := by
+theorem v2v_follows (fromA toA : Aff) (shape : Ax → Int) (dt : PtDtype) (roundOut check : Bool) (pts : List V3) :
+    v2vBySource fromA toA shape dt roundOut check pts = v2v fromA toA shape dt roundOut check pts := by
   unfold v2vBySource v2v
   simp only [v2vSteps, runIdx, idxStep]
   cases hinv : toA.inv with
@@ -1963,14 +1963,18 @@ theorem v2v_follows (fromA toA : Aff) (shape : Ax → Int) (roundOut check : Boo
         List.map (fun p => if roundOut = true then roundV ((inv.comp fromA).apply p) else (inv.comp fromA).apply p) pts := by
       cases roundOut <;> simp [List.map_map]
     rw [hmap]
-    cases check with
-    | false => rfl
-    | true =>
-      simp only [if_true]
-      cases boundsFail v2vBoundsAxis shape
+    cases v2vCast dt roundOut
         (List.map (fun p => if roundOut = true then roundV ((inv.comp fromA).apply p) else (inv.comp fromA).apply p) pts) with
-      | error e => rfl
-      | ok b => cases b <;> rfl
+    | error e => rfl
+    | ok out =>
+      simp only [bindE]
+      cases check with
+      | false => rfl
+      | true =>
+        simp only [if_true]
+        cases boundsFail v2vBoundsAxis shape out with
+        | error e => rfl
+        | ok b => cases b <;> rfl
 
 theorem refToIdx_follows (A : Aff) (shape : Ax → Int) (roundOut check : Bool) (pts : List V3) :
     refToIdxBySource A shape roundOut check pts = refToIdx A shape roundOut check pts := by
